@@ -317,9 +317,21 @@ def _foreign(ctx, model, ev):
     mem = model.lookup(ev, "map_numpy_array")
     ok = False
     if mem is not None and mem.kind == "func":
-        recs = [e for ps in summarize(mem.node) for e in ps.events
-                if e.kind == "rec"]
-        ok = bool(recs) and "numpy.ndindex(expr.shape)" in ast.unparse(mem.node)
+        # the result is an array filled, for every index of the operand's
+        # shape, with the evaluation of the entry at that index
+        ok = True
+        for ps in summarize(mem.node):
+            rv = ps.retval
+            if not (ps.term == "return" and isinstance(rv, tuple)
+                    and rv[0] == "dictextend"):
+                ok = False
+                break
+            _, base, key, val, it = rv[:5]
+            ok = ok and isinstance(it, tuple) and it[0] == "call" \
+                and it[1].endswith("ndindex") \
+                and it[2] == (("attr", NODE, "shape"),) \
+                and key == ("elem", it) \
+                and val == ("rec", ("index", NODE, None, key), True, ())
     ctx.ob("E/EvaluationMapper/map_numpy_array", ok, where(mem),
            "every array entry is evaluated")
 
